@@ -98,7 +98,10 @@ func parseRaceReport(blk string) raceReport {
 			if j := strings.IndexByte(path, ' '); j >= 0 {
 				path = path[:j]
 			}
-			if strings.Contains(path, "/internal/verif/") || strings.Contains(path, "/src/runtime/") || strings.Contains(path, "/src/sync/") || strings.Contains(path, "/src/internal/") {
+			// the access is attributed to the innermost frame that is not a runtime helper acting for its caller
+			// (slicecopy, memmove, mapassign, ...); engine and harness frames are NOT skipped: an access made by the
+			// engine or the harness is not the program's
+			if strings.Contains(path, "/src/runtime/") || strings.Contains(path, "/src/internal/") {
 				continue
 			}
 			fn, file = l, path
@@ -119,7 +122,7 @@ func parseRaceReport(blk string) raceReport {
 			if i := strings.IndexByte(base, ':'); i >= 0 {
 				base = base[:i]
 			}
-			return !strings.HasPrefix(base, "zz_verif_") && !strings.HasSuffix(base, "_test.go")
+			return !strings.HasPrefix(base, "zz_verif_") && !strings.HasSuffix(base, "_test.go") && !strings.Contains(p, "/internal/verif/")
 		}
 		r.Relevant = inRepo(r.FileA) && inRepo(r.FileB)
 	}
